@@ -59,6 +59,11 @@ func decodeTextRegion(pool *bitmapPool, dec *mqDecoder, p *textRegionParams) (*b
 	if err != nil {
 		return nil, err
 	}
+	// filling the region and compositing it onto the page costs one
+	// operation per pixel, whether or not any symbol is placed
+	if err := pool.chargeWork(int64(p.Width) * int64(p.Height)); err != nil {
+		return nil, err
+	}
 	if p.DefPixel != 0 {
 		for i := range bm.Pix {
 			bm.Pix[i] = 0xFF
@@ -267,6 +272,11 @@ type textRegionHuffParams struct {
 func decodeTextRegionHuffman(pool *bitmapPool, hr *huffReader, p *textRegionHuffParams) (*bitmap.Bitmap, error) {
 	bm, err := pool.allocBitmap(p.Width, p.Height)
 	if err != nil {
+		return nil, err
+	}
+	// filling the region and compositing it onto the page costs one
+	// operation per pixel, whether or not any symbol is placed
+	if err := pool.chargeWork(int64(p.Width) * int64(p.Height)); err != nil {
 		return nil, err
 	}
 	if p.DefPixel != 0 {
